@@ -398,13 +398,16 @@ def e2e_job(job):
     from toasty.pyramid import PyramidIO, Pos
     from toasty.samplers import WcsSampler
 
-    (nx, ny, scale, rot, parity, center, depth, planetary) = job
+    (nx, ny, scale, rot, parity, center, depth, planetary) = job[:8]
+    via_builder = len(job) > 8 and job[8]
     part = Part()
     cfg = {"image": (nx, ny), "scale_deg": scale, "rotation": rot, "parity": parity, "center": center, "depth": depth, "coordsys": "planetary" if planetary else "astronomical"}
+    if via_builder:
+        cfg["entry"] = "Builder.toast_base"
     part.case(nontrivial=True)
 
     def bad(clause, detail):
-        part.violation("end-to-end/%s" % clause, "%r: %s" % (cfg, detail), cfg)
+        part.violation("end-to-end/%s%s" % (clause, "/via-builder" if via_builder else ""), "%r: %s" % (cfg, detail), cfg)
 
     wcs = footprint_wcs(nx, ny, scale, rot, parity, center)
     data = (np.arange(nx * ny, dtype=np.float32).reshape(ny, nx) % 97) + 1
@@ -414,7 +417,13 @@ def e2e_job(job):
         pu = PyramidIO(os.path.join(d, "u"), default_format="npy")
         try:
             with quiet():
-                toast.sample_layer_filtered(pf, ws.filter(), ws.sampler(), depth, coordsys=cs_of(planetary), parallel=1)
+                if via_builder:
+                    # the entry point the FITS tiler and tile-allsky use (filter passed as a keyword)
+                    from toasty.builder import Builder
+
+                    Builder(pf).toast_base(ws.sampler(), depth, is_planet=planetary, tile_filter=ws.filter(), parallel=1)
+                else:
+                    toast.sample_layer_filtered(pf, ws.filter(), ws.sampler(), depth, coordsys=cs_of(planetary), parallel=1)
                 toast.sample_layer(pu, ws.sampler(), depth, coordsys=cs_of(planetary), parallel=1)
         except Exception as e:
             bad("raises:%s" % type(e).__name__, repr(e))
@@ -454,6 +463,12 @@ def footprints(tier):
         for dec in (90.0, -90.0):
             for parity in (1, -1):
                 out.append((nx, ny, 1.0, 0.0 if parity > 0 else 30.0, parity, (0.0, dec, cx, cy)))
+    # long thin strips whose long side bends around a pole lying just outside the image (the latitude extremum
+    # sits in the middle of a side, not at a corner)
+    for (nx, ny, rot) in [(4, 120, 90.0), (120, 4, 0.0), (5, 90, 270.0), (90, 5, 180.0)]:
+        for dec in (86.0, -86.0, 84.5):
+            for parity in (1, -1):
+                out.append((nx, ny, 1.0, rot, parity, (40.0, dec)))
     k = 0
     for (nx, ny) in sizes:
         for scale in (0.02, 0.6):
@@ -502,6 +517,8 @@ def run(tier, seed):
         e2e += [(64, 64, 0.3, 200.0, 1, (359.9, 60.0), 4, False), (3, 40, 0.6, 90.0, -1, (100.0, 0.0), 4, True), (2, 2, 0.6, 30.0, 1, (0.0, 0.0), 4, False)]
     for c in e2e:
         jobs.append(("e2e", c))
+    for c in [(15, 15, 0.6, 0.0, 1, (40.0, -20.0), 3, True), (40, 30, 0.5, 30.0, 1, (0.0, 10.0), 3, False), (16, 16, 0.6, 45.0, -1, (180.0, 85.0), 3, True)]:
+        jobs.append(("e2e", c + (True,)))
     par.pmap(_job, jobs, rep)
     return rep.finish()
 
@@ -513,7 +530,7 @@ def replay(payload):
     elif "grid" in r:
         p = chunk_job((r["map"][0], r["map"][1], r["grid"][0], r["grid"][1], r["depth"]))
     elif "depth" in r:
-        p = e2e_job((r["image"][0], r["image"][1], r["scale_deg"], r["rotation"], r["parity"], tuple(r["center"]), r["depth"], r["coordsys"] == "planetary"))
+        p = e2e_job((r["image"][0], r["image"][1], r["scale_deg"], r["rotation"], r["parity"], tuple(r["center"]), r["depth"], r["coordsys"] == "planetary", r.get("entry") == "Builder.toast_base"))
     else:
         p = footprint_job([(r["image"][0], r["image"][1], r["scale_deg"], r["rotation"], r["parity"], tuple(r["center"]))])
     for sig, (detail, _) in p.violations.items():
